@@ -174,7 +174,7 @@ fn bvh_case(r: &mut Rng, n: usize, pattern: usize, nrays: usize, out: &str, find
         coq::list(&rays.iter().zip(&answers).collect::<Vec<_>>(), |(ray, a)| format!("({}, {}, {})", rayq(ray), coq::b(a.0), coq::b(a.1)))
     );
     let blocked = answers.iter().filter(|a| a.1).count();
-    Some(Case { term, json: json!({"input": desc, "blocked_rays": blocked, "rays": nrays, "tree_elements_matched": ok}), nontrivial: blocked > 0 && blocked < nrays })
+    Some(Case { post: String::new(), term, json: json!({"input": desc, "blocked_rays": blocked, "rays": nrays, "tree_elements_matched": ok}), nontrivial: blocked > 0 && blocked < nrays })
 }
 
 /// rational points of the unit circle (cos, sin) with the angle in degrees
@@ -248,6 +248,7 @@ fn poly_case(r: &mut Rng, pairs: &[(i64, i64, i64, f64)], nrays: usize) -> Case 
         coq::list(&rays, |(ray, a)| format!("({}, {})", rayq(ray), coq::b(*a)))
     );
     Case {
+        post: String::new(),
         term,
         json: json!({"kind": "polygon", "tilt": pose.tilt, "azimuth": pose.azimuth, "position": [pose.pos.x, pose.pos.y, pose.pos.z],
                      "polygon": polygon.iter().map(|p| [p.x, p.y]).collect::<Vec<_>>(), "hits": hits, "rays": nrays}),
@@ -291,6 +292,7 @@ fn reveal_case(r: &mut Rng, pairs: &[(i64, i64, i64, f64)], findings: &mut Vec<s
     );
     let vertical = (pose.tilt - 90.0).abs() < 1e-3;
     Some(Case {
+        post: String::new(),
         term,
         json: json!({"kind": "reveal", "tilt": pose.tilt, "azimuth": pose.azimuth, "window": [x, y, w, h, s], "reveals": quads.len(),
                      "corners": quads.iter().map(|q| q.iter().map(|p| [p.x, p.y, p.z]).collect::<Vec<_>>()).collect::<Vec<_>>(),
